@@ -36,12 +36,12 @@ type StopAt struct {
 type Script struct {
 	ID         int      `json:"id"`
 	Workers    int      `json:"workers"`
-	MaxWorkers int      `json:"maxw"` // -1: option not given (unlimited)
-	Du         int      `json:"du"`   // ms, 0 = until stopped
-	Waits      []int    `json:"waits"` // pacer wait in ms per call, last one repeats
+	MaxWorkers int      `json:"maxw"`      // -1: option not given (unlimited)
+	Du         int      `json:"du"`        // ms, 0 = until stopped
+	Waits      []int    `json:"waits"`     // pacer wait in ms per call, last one repeats
 	StopCall   int      `json:"stop_call"` // pacer answers stop at this call (1-based), 0 = never
-	Lat        []int    `json:"lat"`  // transport latency in ms per sequence number, last repeats
-	Cons       []int    `json:"cons"` // consumer delay in ms before each receive, last repeats
+	Lat        []int    `json:"lat"`       // transport latency in ms per sequence number, last repeats
+	Cons       []int    `json:"cons"`      // consumer delay in ms before each receive, last repeats
 	Stops      []StopAt `json:"stops"`
 	FailCall   int      `json:"fail_call"` // targeter fails at this call (1-based), 0 = never
 	Name       string   `json:"name"`
@@ -99,6 +99,10 @@ type scriptRT struct {
 }
 
 func (rt *scriptRT) RoundTrip(req *http.Request) (*http.Response, error) {
+	if req.URL.Host == "twin.invalid" { // the unobserved second attack of the same Attacker
+		return &http.Response{Status: "200 OK", StatusCode: 200, Proto: "HTTP/1.1", ProtoMajor: 1, ProtoMinor: 1,
+			Header: http.Header{}, Body: io.NopCloser(bytes.NewReader(nil)), Request: req}, nil
+	}
 	seq, err := strconv.Atoi(req.Header.Get("X-Vegeta-Seq"))
 	if err != nil {
 		seq = -1
@@ -227,10 +231,24 @@ func runScript(t *testing.T, tr *Tracer, sc *Script) {
 		})
 
 		scJSON, _ := json.Marshal(sc)
-		tr.Emit("Reset", KV{"id": sc.ID, "workers": sc.Workers, "maxw": sc.MaxWorkers, "du": int64(sc.Du) * 1000, "name": sc.Name, "script": string(scJSON)})
+		twin := sc.ID%4 == 1
+		tr.Emit("Reset", KV{"id": sc.ID, "workers": sc.Workers, "maxw": sc.MaxWorkers, "du": int64(sc.Du) * 1000, "name": sc.Name, "script": string(scJSON), "twin": twin})
+		var wg sync.WaitGroup
+		if twin {
+			// a second attack runs on the same Attacker all the while (one hit per millisecond against another host, its own
+			// pacer, targeter and consumer, none of them observed); it ends when the Attacker is stopped.  Whatever it does,
+			// the observed attack keeps its own sequence numbers, workers and results.
+			other := atk.Attack(vegeta.NewStaticTargeter(vegeta.Target{Method: "GET", URL: "http://twin.invalid/"}),
+				twinPacer{}, 0, "twin")
+			wg.Add(1)
+			go func() {
+				defer wg.Done()
+				for range other {
+				}
+			}()
+		}
 		results := atk.Attack(targeter, &scriptPacer{tr: tr, sc: sc, now: now, cap: paceCap(sc)}, time.Duration(sc.Du)*time.Millisecond, sc.Name)
 
-		var wg sync.WaitGroup
 		consumerDone := make(chan struct{})
 		wg.Add(1)
 		go func() { // the consumer
@@ -311,3 +329,9 @@ func trunc(s string, n int) string {
 	}
 	return s
 }
+
+// twinPacer releases one hit per millisecond for as long as the Attacker runs.
+type twinPacer struct{}
+
+func (twinPacer) Pace(time.Duration, uint64) (time.Duration, bool) { return time.Millisecond, false }
+func (twinPacer) Rate(time.Duration) float64                       { return 1000 }
